@@ -13,6 +13,9 @@ OWNERS = [
     ("bounds.digital_rf_write_rf_data_index.rebase_unbounded", ("C06", "C01")),
     ("nowrap.digital_rf_write_rf_data_index.rebase_unbounded", ("C06", "C01")),
     ("digital_rf_create_rf_data_index.T_unbounded", ("C04", "C06", "C19", "C01")),
+    ("digital_rf_create_rf_data_index.rows_unbounded", ("C06", "C01", "C19")),
+    ("L-cnt-mono", ("C06", "C01", "C19")),
+    ("L-sel-equiv", ("C06", "C01", "C19")),
     ("L-wf-transitive", ("C04", "C06", "C19", "C01", "C05")),
     ("L-fstart-unique", ("C04", "C06", "C19", "C01", "C07")),
     ("digital_rf_create_rf_data_index.reject_unbounded", ("C05",)),
@@ -124,6 +127,11 @@ def add_step_obligations(ck, tu, X, want, units=("index", "step", "blocks")):
         c_index.verify_index_T_unbounded(it)
         c_index.verify_write_index_rebase_unbounded(it)
         take(it.obls)
+        # exact rows of the index function for every index_len (both passes by loop invariants over the ghost counter cnt)
+        it = cfront.CInterp(tu, externals=X, config={"prune_full": False})
+        c_index.verify_index_rows_unbounded(it)
+        take(it.obls)
+        take(c_index.lemmas_rows_unbounded())
         # the transitive form of WF used by the invariants follows from the adjacent form (C05's list) by induction on the
         # index distance: base and step are discharged here, the induction principle itself is the only meta-level step
         import z3 as _z3
@@ -145,7 +153,7 @@ def add_step_obligations(ck, tu, X, want, units=("index", "step", "blocks")):
         ck.extra.setdefault("bounded_functions", []).append(
             "digital_rf_create_rf_data_index / digital_rf_get_global_sample: loops unrolled for index_len <= %d with every value symbolic "
             "(bounded stand-in; callers are verified against the contract for all index_len). Proved for EVERY index_len by loop invariants: "
-            "samples_to_write (T_unbounded), reject-iff-malformed (reject_unbounded), get_global_sample (unbounded); write_rf_data_index's offset rebasing (rebase_unbounded); still bounded: exact rows / row_count of the second pass" % LM)
+            "samples_to_write (T_unbounded), reject-iff-malformed (reject_unbounded), get_global_sample (unbounded); write_rf_data_index's offset rebasing (rebase_unbounded); exact rows / row_count (rows_unbounded, ghost counter cnt); still bounded: lemma L-index-post (exact rows => abstract index postcondition)" % LM)
     if "step" in units:
         import z3 as _z
         from spec.timespec import ceil_is as _ceil_is
